@@ -143,7 +143,7 @@ func c08R4(p *Prog, r *Report) {
 		recv, name string
 	}
 	for _, s := range []site{{"StreamServer", "HandleStream"}, {"UDPServer", "NewUnpacker"}} {
-		fc := p.Func("ss2022", s.recv, s.name)
+		fc := p.Inlined(p.Func("ss2022", s.recv, s.name))
 		info := fc.Info()
 		prefix := "ss2022.(*" + s.recv + ")." + s.name
 		lookups := fc.CallsTo(isFn(mp("ss2022"), "CredStore", "LookupUser"))
